@@ -83,7 +83,7 @@ def eval_device(case):
             exe = fb.build(cpp, wd)
         except fb.CompileError as e:
             return "FAIL", [mk("compile-error", "compiles", str(e)[:300])]
-        trace = fb.run(exe, case["n"], fb.make_tape(t0_us=case["t0_us"], jitter=case["jitter"], budget=2_000_000), wd, timeout=60)
+        trace = fb.run(exe, case["n"], fb.make_tape(t0_us=case["t0_us"], jitter=case["jitter"], budget=2_000_000), wd, timeout=300)
     if trace.status != "ok":
         return "FAIL", [mk("firmware-" + trace.status, "runs", trace.stderr[-200:])]
     cols = case["cols"]
